@@ -386,6 +386,10 @@ class TestCase(unittest.TestCase):
         self.__exception_handlers.append(handler)
 
     def _add_reason(self, reason):
+        # skipTest() and expectFailure() document that the reason only has to
+        # be convertible to text.
+        if not isinstance(reason, str):
+            reason = str(reason)
         self.addDetail("reason", content.text_content(reason))
 
     def assertEqual(self, expected, observed, message=""):
